@@ -86,4 +86,38 @@ theorem rnd_sub_rnd (p : Nat) (a b : Rat) : rnd p (rnd p a - rnd p b) = rnd p a 
 theorem rnd_add_rnd (p : Nat) (a b : Rat) : rnd p (rnd p a + rnd p b) = rnd p a + rnd p b :=
   rnd_of_onGrid ((rnd_onGrid p a).add (rnd_onGrid p b))
 
+/-- an integer perturbed by less than one half rounds back to the integer -/
+theorem roundHA_absorbs (k : Int) {d : Rat} (h1 : -(1/2) < d) (h2 : d < 1/2) : roundHA ((k : Rat) + d) = k := by
+  unfold roundHA
+  split
+  · show ⌊((k : ℚ) + d + 1/2)⌋ = k
+    rw [Int.floor_eq_iff]
+    constructor <;> linarith
+  · have : ⌊(-((k : ℚ) + d) + 1/2)⌋ = -k := by
+      rw [Int.floor_eq_iff]
+      push_cast
+      constructor <;> linarith
+    show -⌊(-((k : ℚ) + d) + 1/2)⌋ = k
+    rw [this]; ring
+
+/-- **re-rounding absorbs any error below half a grid unit**: an on-grid value `g` perturbed by `e` with
+`|e| · 10^p < 1/2` rounds back to `g` exactly -/
+theorem rnd_absorbs {p : Nat} {g e : Rat} (hg : OnGrid p g)
+    (h1 : -(1/2) < e * (10^p : Nat)) (h2 : e * (10^p : Nat) < 1/2) : rnd p (g + e) = g := by
+  obtain ⟨k, rfl⟩ := hg
+  unfold rnd
+  have : ((k : Rat) / (10^p : Nat) + e) * (10^p : Nat) = (k : Rat) + e * (10^p : Nat) := by
+    rw [add_mul, div_mul_cancel₀ _ (pow10_ne_zero p)]
+  rw [this, roundHA_absorbs k h1 h2]
+
+/-- the integer order key of an on-grid value (`value · 10^p`, floored) reads back as the value -/
+theorem floor_key_of_onGrid {p : Nat} {x : Rat} (h : OnGrid p x) :
+    (((x * (10^p : Nat)).floor : Int) : Rat) / (10^p : Nat) = x := by
+  obtain ⟨k, rfl⟩ := h
+  rw [div_mul_cancel₀ _ (pow10_ne_zero p)]
+  have : ((k : Rat)).floor = k := by
+    show ⌊(k : ℚ)⌋ = k
+    exact Int.floor_intCast k
+  rw [this]
+
 end Crem
